@@ -254,6 +254,9 @@ class ExprMixin:
         return self.binop(e.op, self.eval(e.left, fr), self.eval(e.right, fr), e.lineno)
 
     def binop(self, op, a, b, lineno=0):
+        if isinstance(op, ast.Div) and isinstance(a, VOpt) and isinstance(a.val, VOpaque):
+            self.safety(z3.Not(a.isnone), "none operand", lineno)  # `maybe_path / name`: TypeError on None
+            a = a.val
         if isinstance(op, ast.Div) and isinstance(a, VOpaque):
             from .ex_call import EXTERNALS
             h = EXTERNALS.get(f"{a.ty.name}.__truediv__")  # e.g. pathlib: path / "name"
@@ -381,6 +384,12 @@ class ExprMixin:
             import operator
             f = {ast.Lt: operator.lt, ast.LtE: operator.le, ast.Gt: operator.gt, ast.GtE: operator.ge}[type(op)]
             return z3.BoolVal(f(ca, cb))
+        from .ty import VSet
+        if (isinstance(a, VSet) or isinstance(b, VSet)) and self.merge_depth == 0 and self.spec_depth == 0:
+            # subset / superset test involving a symbolic set: not modelled -- an ARBITRARY truth value (both branches are
+            # explored; nothing can be proved FROM the outcome, only about code that does not depend on it)
+            self.ufs_used.add("set inclusion on a symbolic set: arbitrary truth value")
+            return z3.Const(fresh_name("set_inclusion"), z3.BoolSort())
         raise Unsupported(f"ordering comparison on {a}, {b}")
 
     def note_any_typed(self, v, tyname, lineno):
